@@ -329,19 +329,19 @@ func EncAPRep(enc EncryptedData) []byte {
 
 // error codes used by the reference KDC
 const (
-	ErrNameExp          = 1
+	ErrNameExp           = 1
 	ErrCPrincipalUnknown = 6
 	ErrSPrincipalUnknown = 7
-	ErrNeverValid       = 11
-	ErrPolicy           = 12
-	ErrBadOption        = 13
-	ErrEtypeNoSupp      = 14
-	ErrPreauthFailed    = 24
-	ErrPreauthRequired  = 25
-	ErrTktExpired       = 32
-	ErrSkew             = 37
-	ErrModified         = 41
-	ErrResponseTooBig   = 52
-	ErrGeneric          = 60
-	ErrWrongRealm       = 68
+	ErrNeverValid        = 11
+	ErrPolicy            = 12
+	ErrBadOption         = 13
+	ErrEtypeNoSupp       = 14
+	ErrPreauthFailed     = 24
+	ErrPreauthRequired   = 25
+	ErrTktExpired        = 32
+	ErrSkew              = 37
+	ErrModified          = 41
+	ErrResponseTooBig    = 52
+	ErrGeneric           = 60
+	ErrWrongRealm        = 68
 )
